@@ -91,6 +91,16 @@ package core
 //      gang the pod names (the annotation / label is mutable): the pod then is a member of the new
 //      gang and of no set of the former one; such a version is written only while the scheduler
 //      does not hold the pod and is delivered only then.
+//  I5  A job may be deleted as a whole and submitted again under the same names: every pod of every
+//      gang of a group of PodGroup gangs is deleted (deletes delivered), then every PodGroup of the
+//      group; later the ordinary operations create PodGroups and pods with the same names again.
+//      Only for groups that never changed their group list, while the scheduler holds none of the
+//      pods, sequential units only. A group whose PodGroups and pods are all gone has no history:
+//      only here "some member was bound before" starts again at false (everywhere else it is
+//      never reset, which is the lenient reading).
+//      min-available of annotation / lightweight-label gangs is a DECIMAL number and may be written
+//      zero-padded ("010" is ten members); 4% of the cases are one gang of 10-12 pods with min 10
+//      written like that. The shadow minimum is the declared number, never a parse of the string.
 //  G1  The gang-groups annotation (pod annotation or PodGroup annotation). A gang that names no
 //      other gang is its own group, however that is spelled: annotation absent, "", "null", "[]",
 //      illegal JSON, or a list naming only the gang itself. A list may name a gang that never
@@ -468,6 +478,8 @@ type c04Gang struct {
 	totalSpell  int             // total-number: 0 >= min, 1 absent, 2 "0", 3 below min, 4 illegal
 	waitSpell   int             // annotation gangs, waiting-time: 0 absent, 1 valid, 2 illegal, 3 negative
 	minSpell    int             // annotation gangs, min-available: 0 valid, 1 illegal value, 2 absent - with 1 and 2 the gang can never be initialised
+	minPad      int             // annotation gangs: leading zeros written in front of the decimal min-available value
+	declChanged bool            // a delivered PodGroup update changed the gang-group list at least once
 	movedAway   map[string]bool // pods whose gang name was changed to another gang by a pod update (seq)
 	pgRV        int
 	// crd gangs: the last PodGroup the cache was told about
@@ -744,6 +756,7 @@ func c04NewUniverse(c *kit.Case, conc bool) *c04U {
 				if r.Pct(3) {
 					g.minSpell = 1 + r.Intn(2)
 				}
+				g.minPad = r.Weighted(80, 14, 6)
 			}
 			gi++
 			grp = append(grp, g)
@@ -762,6 +775,14 @@ func c04NewUniverse(c *kit.Case, conc bool) *c04U {
 				}
 			}
 		}
+	}
+	if r.Pct(4) {
+		// one big gang: ten members needed, the value written with a leading zero
+		g := &c04Gang{idx: 0, name: "g0", ns: c04NS, slots: r.Range(10, 12), movedAway: map[string]bool{}, lightweight: r.Pct(30), minPad: 1 + r.Intn(2)}
+		g.id = g.ns + "/" + g.name
+		g.want = c04Cfg{min: 10, mode: kit.Pick(r, []string{extension.GangModeStrict, extension.GangModeNonStrict}), policy: kit.Pick(r, c04Policies), timeout: 300, decl: []string{g.id}, repr: kit.Pick(r, c04SingleReprs)}
+		u.gangs = []*c04Gang{g}
+		u.moves = false
 	}
 	u.index()
 	return u
@@ -791,6 +812,12 @@ func (u *c04U) countDims() {
 		}
 		if g.neverInit() {
 			c.Count("dim_min_available_illegal_or_missing", 1)
+		}
+		if !g.crd && g.minPad > 0 {
+			c.Count("dim_min_available_zero_padded", 1)
+			if g.want.min >= 8 {
+				c.Count("dim_min_available_zero_padded_two_digits", 1)
+			}
 		}
 		if g.want.mode == extension.GangModeStrict {
 			c.Count(fmt.Sprintf("dim_mode_strict_spelled_%s", []string{"explicit", "absent", "illegal"}[g.modeSpell]), 1)
@@ -890,7 +917,7 @@ func (u *c04U) podObject(p *c04Pod, v c04Ver) *corev1.Pod {
 		pod.Labels[v1alpha1.PodGroupLabel] = g.name
 		return pod
 	}
-	min := strconv.Itoa(g.want.min)
+	min := strings.Repeat("0", g.minPad) + strconv.Itoa(g.want.min) // a decimal number, possibly zero-padded ("010" is ten)
 	if g.minSpell == 1 {
 		min = "two"
 	}
@@ -1341,6 +1368,9 @@ func (u *c04U) pgDeliverLocked(g *c04Gang) {
 	if old.policy != cfg.policy {
 		kinds = append(kinds, "policy")
 	}
+	if !c04SameDecl(old.decl, cfg.decl) {
+		g.declChanged = true // (seq only; read under the lock by resubmit)
+	}
 	u.op("I", "podgroup update %s %s (was %s) spec-unchanged=%v changed-annotations=%v", g.id, c04CfgStr(cfg), c04CfgStr(old), specSame, kinds)
 	u.mgr.cache.onPodGroupUpdate(u.pgObject(g, old, rv-1), u.pgObject(g, cfg, rv))
 	switch {
@@ -1419,6 +1449,13 @@ func (u *c04U) infPG(a, b int, allowChange bool) bool {
 			}
 		}
 	default: // delete (I4: only while no member is assumed)
+		if c%2 == 0 {
+			u.mu.Unlock()
+			if u.resubmit(g) {
+				return true
+			}
+			u.mu.Lock()
+		}
 		for _, p := range g.pods {
 			if p.held || p.fw != 0 {
 				u.mu.Unlock()
@@ -1447,6 +1484,88 @@ func (u *c04U) infPG(a, b int, allowChange bool) bool {
 		g.want.timeout++ // the chosen change was not applicable: a timeout-only update instead
 	}
 	u.pgDeliverLocked(g)
+	return true
+}
+
+// resubmit: the job is deleted as a whole and (later, by the ordinary operations) submitted again
+// under the same names (I5): every pod of every gang of g's group is deleted and the deletes are
+// delivered, then every PodGroup of the group is deleted. Only for groups of PodGroup gangs that
+// never changed their group list and while the scheduler holds none of the pods; sequential units
+// only. A group whose PodGroups and pods are all gone has no history: "some member was bound
+// before" starts again at false for the gangs of the group.
+func (u *c04U) resubmit(g *c04Gang) bool {
+	if u.conc {
+		return false
+	}
+	u.mu.Lock()
+	root := u.find(g.idx)
+	var grp []*c04Gang
+	for _, h := range u.gangs {
+		if u.find(h.idx) == root {
+			grp = append(grp, h)
+		}
+	}
+	ok := true
+	for _, h := range grp {
+		if !h.crd || !h.cfgDone || h.declChanged || !c04CfgEq(h.want, h.cfg) || len(h.cfg.decl) != len(grp) {
+			ok = false
+		}
+		for _, p := range h.pods {
+			if p.held || p.fw != 0 {
+				ok = false
+			}
+		}
+	}
+	if !ok {
+		u.mu.Unlock()
+		return false
+	}
+	var pods []*c04Pod
+	for _, h := range grp {
+		for _, p := range h.pods {
+			if !p.delDone {
+				pods = append(pods, p)
+				if !p.apiDeleted {
+					p.apiDeleted = true
+					u.rv++
+					p.queue = append(p.queue, c04Ver{del: true, node: p.apiNode, rv: u.rv, gang: p.apiGang})
+				}
+			}
+		}
+	}
+	wasSat := u.sat[root]
+	u.mu.Unlock()
+	u.op("I", "the job of group %v is deleted as a whole (pods first, then the PodGroups); it was bound before: %v", g.cfg.decl, wasSat)
+	for _, p := range pods {
+		for u.deliverHead(p) {
+		}
+	}
+	for _, h := range grp {
+		u.mu.Lock()
+		h.pgRV++
+		cfg := h.cfg
+		h.cfgBegun, h.cfgDone = false, false
+		for _, p := range h.pods {
+			p.addBegun, p.addDone, p.boundBegun, p.boundDone, p.staleAfterBound = false, false, false, false, false
+		}
+		u.mu.Unlock()
+		u.op("I", "podgroup delete %s", h.id)
+		u.mgr.cache.onPodGroupDelete(u.pgObject(h, cfg, h.pgRV))
+		u.c.Count("op_podgroup_delete", 1)
+	}
+	u.mu.Lock()
+	for _, h := range grp {
+		u.parent[h.idx] = h.idx
+		u.sat[h.idx] = false
+	}
+	u.mu.Unlock()
+	u.c.Count("jobs_deleted_as_a_whole", 1)
+	if len(grp) > 1 {
+		u.c.Count("jobs_deleted_as_a_whole_multi_gang", 1)
+		if wasSat {
+			u.c.Count("jobs_deleted_as_a_whole_multi_gang_after_a_bind", 1)
+		}
+	}
 	return true
 }
 
@@ -2659,7 +2778,7 @@ type c04GangSpec struct {
 }
 
 type c04Step struct {
-	op   string // create deliver touch delete pg pg-delete api-move api-join api-leave api-mode api-policy api-repr | permit nofit wake timeout bindok bindfail bindlost unreserve
+	op   string // create deliver touch delete pg pg-delete resubmit api-move api-join api-leave api-mode api-policy api-repr | permit nofit wake timeout bindok bindfail bindlost unreserve
 	key  string // pod "gN-pM" or gang "gN"; with an argument "gN>arg" (api-join: the gang to join, api-policy: the policy, api-repr: the spelling)
 	want Status // permit: expected status ("" = any); documents the script, a mismatch is a harness error
 }
@@ -2667,6 +2786,7 @@ type c04Step struct {
 type c04Script struct {
 	name  string
 	gangs []c04GangSpec
+	pads  []int // optional: leading zeros gang i writes in front of its min-available
 	reprs []int // optional: how gang i spells its gang-groups annotation (gangs on their own only)
 	ctx   bool  // run with the gang scheduling context machinery (S7); the script then has to follow NextPod's order
 	steps []c04Step
@@ -2760,6 +2880,16 @@ var c04Scripts = []c04Script{
 		steps: []c04Step{{"create", "g0-p0", ""}, {"create", "g0-p1", ""}, {"deliver", "g0-p0", ""}, {"deliver", "g0-p1", ""}, {"permit", "g0-p0", Wait}, {"permit", "g0-p1", Success},
 			{"wake", "g0-p0", ""}, {"bindok", "g0-p0", ""}, {"bindok", "g0-p1", ""}, {"deliver", "g0-p0", ""}, {"deliver", "g0-p1", ""},
 			{"api-move", "g0-p0>g1", ""}, {"deliver", "g0-p0", ""}, {"create", "g0-p2", ""}, {"deliver", "g0-p2", ""}, {"permit", "g0-p2", Success}}},
+	{name: "min-available written as the zero-padded decimal \"010\": ten members are needed, the eighth and ninth still wait",
+		gangs: []c04GangSpec{{0, false, 10, 10, c04N, c04W}},
+		pads:  []int{1},
+		steps: []c04Step{{"create", "g0-p0", ""}, {"create", "g0-p1", ""}, {"create", "g0-p2", ""}, {"create", "g0-p3", ""}, {"create", "g0-p4", ""}, {"create", "g0-p5", ""}, {"create", "g0-p6", ""}, {"create", "g0-p7", ""}, {"create", "g0-p8", ""}, {"create", "g0-p9", ""}, {"deliver", "g0-p0", ""}, {"deliver", "g0-p1", ""}, {"deliver", "g0-p2", ""}, {"deliver", "g0-p3", ""}, {"deliver", "g0-p4", ""}, {"deliver", "g0-p5", ""}, {"deliver", "g0-p6", ""}, {"deliver", "g0-p7", ""}, {"deliver", "g0-p8", ""}, {"deliver", "g0-p9", ""}, {"permit", "g0-p0", Wait}, {"permit", "g0-p1", Wait}, {"permit", "g0-p2", Wait}, {"permit", "g0-p3", Wait}, {"permit", "g0-p4", Wait}, {"permit", "g0-p5", Wait}, {"permit", "g0-p6", Wait}, {"permit", "g0-p7", Wait}, {"permit", "g0-p8", Wait}, {"permit", "g0-p9", Success}}},
+	{name: "a bound two-gang PodGroup job is deleted as a whole and submitted again under the same names: the new group has not been satisfied before",
+		gangs: []c04GangSpec{{0, true, 1, 2, c04S, c04O}, {0, true, 1, 2, c04S, c04O}},
+		steps: []c04Step{{"pg", "g0", ""}, {"pg", "g1", ""}, {"create", "g0-p0", ""}, {"create", "g1-p0", ""}, {"deliver", "g0-p0", ""}, {"deliver", "g1-p0", ""},
+			{"permit", "g0-p0", Wait}, {"permit", "g1-p0", Success}, {"wake", "g0-p0", ""}, {"bindok", "g0-p0", ""}, {"bindok", "g1-p0", ""}, {"deliver", "g0-p0", ""}, {"deliver", "g1-p0", ""},
+			{"resubmit", "g0", ""}, {"pg", "g1", ""}, {"pg", "g0", ""}, {"create", "g0-p0", ""}, {"create", "g1-p0", ""}, {"deliver", "g0-p0", ""}, {"deliver", "g1-p0", ""},
+			{"permit", "g0-p0", Wait}, {"permit", "g1-p0", Success}, {"wake", "g0-p0", ""}, {"bindok", "g0-p0", ""}, {"bindok", "g1-p0", ""}}},
 }
 
 func c04ScriptUniverse(c *kit.Case, sc c04Script) *c04U {
@@ -2782,6 +2912,9 @@ func c04ScriptUniverse(c *kit.Case, sc c04Script) *c04U {
 		u.gangs[i].want.decl = ids
 		if i < len(sc.reprs) {
 			u.gangs[i].want.repr = sc.reprs[i]
+		}
+		if i < len(sc.pads) {
+			u.gangs[i].minPad = sc.pads[i]
 		}
 	}
 	u.index()
@@ -2835,8 +2968,10 @@ func TestVerifC04Scripted(t *testing.T) {
 					}
 					u.mu.Unlock()
 					u.op("I", "api write: pod %s now names gang %s", key, arg)
+				case "resubmit":
+					ok = u.byID[u.force] != nil && u.resubmit(u.byID[u.force])
 				case "pg-delete":
-					ok = u.infPG(0, 4*19, true)
+					ok = u.infPG(0, 4*19+80, true)
 				case "bindlost":
 					ok = u.bindFinish(0, 2)
 				case "unreserve":
